@@ -148,7 +148,7 @@ def native_lib(asan=True, extra_defs=()):
         if key in _native_cache:
             return _native_cache[key]
         d = scratch('cqv-native-')
-        san = ['-fsanitize=address,undefined', '-fno-sanitize-recover=undefined', '-fno-omit-frame-pointer'] if asan else []
+        san = ['-fsanitize=address,undefined', '-fno-sanitize=nonnull-attribute', '-fno-sanitize-recover=undefined', '-fno-omit-frame-pointer'] if asan else []
         base = ['gcc', '-std=gnu11', '-O1', '-g', '-w', '-fopenmp'] + san + REAL_DEFS + REAL_INCS + list(extra_defs)
         def one(rel):
             o = os.path.join(d, rel.replace('/', '_') + '.o')
@@ -172,7 +172,7 @@ def native_lib(asan=True, extra_defs=()):
 
 
 def native_link_flags(asan=True):
-    san = ['-fsanitize=address,undefined', '-fno-sanitize-recover=undefined'] if asan else []
+    san = ['-fsanitize=address,undefined', '-fno-sanitize=nonnull-attribute', '-fno-sanitize-recover=undefined'] if asan else []
     return san + ['-fopenmp', '-lz', '-lzstd', '-lm', '-lpthread']
 
 
@@ -186,7 +186,7 @@ def native_build_and_run(csrcs, out_name, defs=(), incs=(), asan=True, args=(), 
         if lib is None:
             return {'built': False, 'error': 'native lib build failed: %r' % (errs[:1],)}
         libs = [lib]
-    san = ['-fsanitize=address,undefined', '-fno-sanitize-recover=undefined', '-fno-omit-frame-pointer'] if asan else []
+    san = ['-fsanitize=address,undefined', '-fno-sanitize=nonnull-attribute', '-fno-sanitize-recover=undefined', '-fno-omit-frame-pointer'] if asan else []
     cmd = ['gcc', '-std=gnu11', '-O1', '-g', '-w'] + san + REAL_DEFS + REAL_INCS + ['-I' + os.path.join(VERIF, 'harness'), '-I' + os.path.join(VERIF, 'ref')] + list(incs) + list(defs) + list(csrcs) + libs + ['-o', exe] + native_link_flags(asan)
     rc, out, err, _, _ = run(cmd, timeout=600)
     if rc != 0:
